@@ -33,6 +33,9 @@ type c13Ev struct {
 type c13Case struct {
 	P4      bool    `json:"p4"`
 	History []c13Ev `json:"history"`
+	// CPMoved: before the history the control plane moves sessions 0 and 1 to new CP F-SEIDs by Session Modification
+	// (the notification must be addressed with the control plane's SEID as last signalled)
+	CPMoved bool `json:"cpmoved,omitempty"`
 }
 
 var c13Advances = []int64{int64(c13Interval) - 1, 1, int64(c13Interval)}
@@ -106,6 +109,18 @@ func c13Run(res *vResult, cs c13Case, ready *grpc.ClientConn) (viol, desc string
 				return
 			}
 			sess[i] = sessInfo{up: d.UPSEID, cp: uint64(0xC0 + i), ue: vIP4(ue), dlPDR: uint16(20 + i)}
+		}
+		if cs.CPMoved {
+			for i := 0; i < 2; i++ {
+				peer.Send(c10N4+":8805", (&sReq{Kind: kMod, SEID: sess[i].up, Seq: uint32(30 + i), HasCP: true, CPSEID: uint64(0xE0 + i)}).build(c).marshal())
+				vsched.Quiesce("mod-cp")
+				d, err := vDecode(peer.Inbox[len(peer.Inbox)-1])
+				if err != nil || d.Cause != ie.CauseRequestAccepted {
+					prologueErr = fmt.Sprintf("modification %d (new CP F-SEID) not accepted", i)
+					return
+				}
+				sess[i].cp = uint64(0xE0 + i)
+			}
 		}
 		sess[3] = sessInfo{up: 0xDEADBEEF, ue: vIP4("16.9.9.9")}
 		n0 := len(peer.Inbox)
@@ -226,7 +241,12 @@ func TestVerifC13(t *testing.T) {
 		ops = append(ops, c13Ev{Kind: "advance", D: d})
 	}
 	item := 0
-	for _, p4mode := range []bool{false, true} {
+	for _, flavour := range []struct{ p4, moved bool }{{false, false}, {true, false}, {false, true}, {true, true}} {
+		p4mode := flavour.p4
+		depth := depth
+		if flavour.moved {
+			depth -= 2 // the moved-F-SEID flavour two events shallower
+		}
 		// shard by the first two events
 		for a := range ops {
 			for b := range ops {
@@ -242,7 +262,7 @@ func TestVerifC13(t *testing.T) {
 						if res.expired() {
 							return
 						}
-						cs := c13Case{P4: p4mode, History: h}
+						cs := c13Case{P4: p4mode, History: h, CPMoved: flavour.moved}
 						res.journal(cs)
 						v, desc, key := c13Run(res, cs, ready)
 						res.Evaluations++
